@@ -6,11 +6,16 @@ pub mod c01;
 pub mod c02;
 pub mod c03;
 pub mod c04;
+pub mod c05;
+pub mod c06;
 pub mod c08;
 pub mod c10;
 pub mod c11;
 pub mod c12;
 pub mod c13;
+pub mod c15;
+pub mod c16;
+pub mod c17;
 pub mod c19;
 pub mod c20;
 pub mod genhist;
@@ -22,12 +27,18 @@ pub fn dispatch(cmd: &str, o: &Opts) -> i32 {
         "c02" => c02::run(o),
         "c03" => c03::run(o),
         "c04" => c04::run(o),
+        "c05" => c05::run(o),
+        "c06" => c06::run_c06(o),
+        "c07" => c06::run_c07(o),
         "c08" => c08::run_c08(o),
         "c09" => c08::run_c09(o),
         "c10" => c10::run(o),
         "c11" => c11::run(o),
         "c12" => c12::run(o),
         "c13" => c13::run(o),
+        "c15" => c15::run(o),
+        "c16" => c16::run(o),
+        "c17" => c17::run(o),
         "c19" => c19::run(o),
         "c20" => c20::run(o),
         "selfcheck" => match common::selfcheck(o) {
